@@ -96,23 +96,24 @@ def decl1(ctx: Ctx, chk) -> None:
 
 def xfield1(ctx: Ctx, chk) -> None:
     rule = "XFIELD-1"
-    chk.rule(rule, "abstract evaluation of ChildIdField/CommandField._deserialize over the partition child x command x type accepts exactly the cells the statement accepts, for every protocol version")
+    chk.rule(rule, "abstract evaluation of ChildIdField/CommandField._deserialize over the partition child x command x type x {canonical, non-canonical spelling} accepts exactly the cells the statement accepts, for every protocol version (the validators must decide on the parsed integers, not on the text of a field)")
     total = 0
     for V in ctx.versions:
         ev = codec.XEval(ctx, V)
-        for child in codec.XFIELD_CELLS["child"]:
+        for canonical in (True, False):
+          for child in codec.XFIELD_CELLS["child"]:
             for cmd in codec.XFIELD_CELLS["command"]:
                 for mt in codec.XFIELD_CELLS["mtype"]:
                     total += 1
                     chk.instance(rule)
-                    got = ev.run_validate(child, cmd, mt)
+                    got = ev.run_validate(child, cmd, mt, canonical)
                     want = codec.xfield_expected(child, cmd, mt)
-                    cell = f"child={_c(child)},command={_c(cmd)},type={_c(mt)}"
+                    cell = f"child={_c(child)},command={_c(cmd)},type={_c(mt)}" + ("" if canonical else ",spelled non-canonically (' 255', '0255', '+255')")
                     if got == want:
                         chk.ok(rule, f"cell::{cell}", f"{'accepted' if got else 'rejected'} as the statement says", "src/aiomysensors/model/message.py", sample=total in (1, 60, 120))
                     else:
                         chk.refute(rule, f"cell::{cell}", f"a line with {cell} is {'accepted' if got else 'rejected'} by the validators but must be {'accepted' if want else 'rejected'} (protocol {V})", "src/aiomysensors/model/message.py", version=V)
-    chk.floor(rule, "cells evaluated", total, 5 * 7 * 8 * 5)
+    chk.floor(rule, "cells evaluated", total, 2 * 5 * 7 * 8 * 5)
     chk.notes["xfield_partition"] = {k: [_c(x) for x in v] for k, v in codec.XFIELD_CELLS.items()}
 
 
